@@ -15,23 +15,6 @@ def _one(xs, what):
     return xs[0]
 
 
-def _compare_on_feature(src, qual, colvar="feature_id"):
-    """the single comparison `self.df[<colvar>] <op> <name>` inside function `qual` -> (op, rhs name)"""
-    fn = src.find(REL, qual)
-    hits = []
-    for n in ast.walk(fn):
-        if isinstance(n, ast.Compare) and len(n.ops) == 1 and core.norm_expr(n.left) == f"self.df[{colvar}]" and isinstance(n.comparators[0], ast.Name):
-            hits.append(n)
-    n = _one(hits, f"{qual}: self.df[{colvar}] <op> <value>")
-    return CMP[type(n.ops[0])], n.comparators[0].id
-
-
-def _loop_var_over(src, qual, iter_name):
-    fn = src.find(REL, qual)
-    loops = [n for n in ast.walk(fn) if isinstance(n, ast.For) and isinstance(n.iter, ast.Name) and n.iter.id == iter_name and isinstance(n.target, ast.Name)]
-    return _one(loops, f"{qual}: for <v> in {iter_name}").target.id
-
-
 def _defaults(fn):
     a = fn.args
     names = [x.arg for x in a.args]
@@ -46,6 +29,260 @@ def _kw(call, name):
         if k.arg == name:
             return k.value
     return None
+
+
+# ------------------------------------------------------------------ structural extraction (ast shapes -> config records)
+# Local variable names are NOT compared: a variable is identified by the role it plays (loop target, accumulator,
+# selection). What is compared is the shape: what the loop runs over, how the requested values are made iterable,
+# which frame the mask comes from, in which order the pieces are concatenated, how the index is reset.
+def _is_self_df(n):
+    return isinstance(n, ast.Attribute) and n.attr == "df" and isinstance(n.value, ast.Name) and n.value.id == "self"
+
+
+def _selection(n, colparam):
+    """<frame>.loc[<frame>[colparam] <op> <Name>] (or without .loc, optionally .copy()) -> (frame expr, mask frame expr, rhs name) else None"""
+    if isinstance(n, ast.Call) and isinstance(n.func, ast.Attribute) and n.func.attr == "copy" and not n.args and not n.keywords:
+        n = n.func.value
+    if not isinstance(n, ast.Subscript):
+        return None
+    frame = n.value.value if isinstance(n.value, ast.Attribute) and n.value.attr == "loc" else n.value
+    c = n.slice
+    if not (isinstance(c, ast.Compare) and len(c.ops) == 1 and isinstance(c.left, ast.Subscript) and isinstance(c.left.slice, ast.Name)
+            and c.left.slice.id == colparam and isinstance(c.comparators[0], ast.Name)):
+        return None
+    return frame, c.left.value, c.comparators[0].id
+
+
+def _top_for(fn, what):
+    loops = [n for n in fn.body if isinstance(n, ast.For)]
+    return _one(loops, f"{what}: one top-level for loop")
+
+
+def _assigned_before(fn, loop, name):
+    """value of the last top-level assignment `name = ...` before the loop (also inside a top-level `if`), with the guarding test"""
+    out = None
+    for st in fn.body:
+        if st is loop:
+            break
+        if isinstance(st, ast.Assign) and len(st.targets) == 1 and isinstance(st.targets[0], ast.Name) and st.targets[0].id == name:
+            out = (st.value, None)
+        if isinstance(st, ast.If) and not st.orelse:
+            for x in st.body:
+                if isinstance(x, ast.Assign) and len(x.targets) == 1 and isinstance(x.targets[0], ast.Name) and x.targets[0].id == name:
+                    out = (x.value, st.test)
+    return out
+
+
+def _call_attr(n, attr):
+    return isinstance(n, ast.Call) and isinstance(n.func, ast.Attribute) and n.func.attr == attr
+
+
+def _norm_of(fn, loop, vp):
+    """how the requested values (parameter `vp`) are made iterable before the loop"""
+    a = _assigned_before(fn, loop, vp)
+    if a is None:
+        return "none"
+    v, test = a
+    if test is None and _call_attr(v, "atleast_1d") and len(v.args) == 1 and _call_attr(v.args[0], "asarray") \
+            and len(v.args[0].args) == 1 and isinstance(v.args[0].args[0], ast.Name) and v.args[0].args[0].id == vp:
+        return "atleast1d"
+    if test is None and _call_attr(v, "array") and len(v.args) == 1 and isinstance(v.args[0], ast.List):
+        return "wrapInList"
+    if test is not None and isinstance(v, ast.List) and len(v.elts) == 1 and isinstance(v.elts[0], ast.Name) and v.elts[0].id == vp \
+            and isinstance(test, ast.UnaryOp) and isinstance(test.op, ast.Not) and isinstance(test.operand, ast.Call) \
+            and isinstance(test.operand.func, ast.Name) and test.operand.func.id == "isinstance" \
+            and isinstance(test.operand.args[0], ast.Name) and test.operand.args[0].id == vp \
+            and sorted(core.norm_expr(e) for e in getattr(test.operand.args[1], "elts", [])) == ["list", "np.ndarray"]:
+        return "listOrArrayElseWrap"
+    return "bad"
+
+
+def _reset_of(fn, accname):
+    """reset_index handling of the accumulated frame after the loop"""
+    calls = [n for n in ast.walk(fn) if _call_attr(n, "reset_index")]
+    if not calls:
+        return "absent"
+    c = _one(calls, "one reset_index call")
+    if not (isinstance(c.func.value, ast.Name) and c.func.value.id == accname):
+        return "bad"
+    drop = _kw(c, "drop")
+    if drop is not None and isinstance(drop, ast.Constant) and drop.value is True:
+        return "dropTrue"
+    return "keepOld"
+
+
+def _loop_cmp(src, qual):
+    """the single comparison `self.df[feature_id] <op> <loop variable>` inside the function's top-level loop (names of locals are free)"""
+    fn = src.find(REL, qual)
+    loop = _top_for(fn, qual)
+    if not isinstance(loop.target, ast.Name):
+        raise core.AnchorMissing(f"{qual}: loop target is not a plain variable")
+    hits = [n for n in ast.walk(loop) if isinstance(n, ast.Compare) and len(n.ops) == 1 and core.norm_expr(n.left) == "self.df[feature_id]"
+            and isinstance(n.comparators[0], ast.Name) and n.comparators[0].id == loop.target.id]
+    return CMP[type(_one(hits, f"{qual}: self.df[feature_id] <op> <loop variable>").ops[0])]
+
+
+def loop_subset(src):
+    fn = src.find(REL, "Motl.get_motl_subset")
+    vp = fn.args.args[1].arg
+    loop = _top_for(fn, "get_motl_subset")
+    if not (isinstance(loop.iter, ast.Name) and loop.iter.id == vp and isinstance(loop.target, ast.Name)):
+        raise core.AnchorMissing("get_motl_subset: the loop does not run over the requested values themselves")
+    if len(loop.body) != 2 or loop.orelse or not all(isinstance(x, ast.Assign) and len(x.targets) == 1 and isinstance(x.targets[0], ast.Name) for x in loop.body):
+        raise core.AnchorMissing("get_motl_subset: loop body is not <part> = <selection>; <acc> = pd.concat([...])")
+    sel_st, cat_st = loop.body
+    sel = _selection(sel_st.value, "feature_id")
+    if sel is None or sel[2] != loop.target.id:
+        raise core.AnchorMissing("get_motl_subset: first loop statement is not a selection against the loop variable")
+    part, accn = sel_st.targets[0].id, cat_st.targets[0].id
+    c = cat_st.value
+    if not (isinstance(c, ast.Call) and core.norm_expr(c.func) == "pd.concat" and len(c.args) == 1 and isinstance(c.args[0], ast.List)
+            and not c.keywords and len(c.args[0].elts) == 2 and all(isinstance(e, ast.Name) for e in c.args[0].elts)):
+        raise core.AnchorMissing("get_motl_subset: accumulation is not pd.concat([a, b])")
+    names = [e.id for e in c.args[0].elts]
+    acc = "append" if names == [accn, part] else ("prepend" if names == [part, accn] else "bad")
+    init = _assigned_before(fn, loop, accn)
+    if init is None or not _call_attr(init[0], "create_empty_motl_df"):
+        acc = "bad"
+    rets = [n for n in ast.walk(fn) if isinstance(n, ast.Return)]
+    for r in rets:
+        v = r.value
+        ok = (isinstance(v, ast.Name) and v.id == accn) or (isinstance(v, ast.Call) and core.norm_expr(v.func) == "Motl" and
+              [core.norm_expr(a) for a in v.args] + [core.norm_expr(k.value) for k in v.keywords] == [accn])
+        if not ok:
+            acc = "bad"
+    return dict(iter="requested", norm=_norm_of(fn, loop, vp), acc=acc, reset=_reset_of(fn, accn),
+                sameFrame=bool(_is_self_df(sel[0]) and _is_self_df(sel[1])))
+
+
+def loop_remove(src):
+    fn = src.find(REL, "Motl.remove_feature")
+    vp = fn.args.args[2].arg
+    loop = _top_for(fn, "remove_feature")
+    if not (isinstance(loop.iter, ast.Name) and loop.iter.id == vp and isinstance(loop.target, ast.Name)):
+        raise core.AnchorMissing("remove_feature: the loop does not run over the given values themselves")
+    if len(loop.body) != 1 or not isinstance(loop.body[0], ast.Assign) or len(loop.body[0].targets) != 1:
+        raise core.AnchorMissing("remove_feature: loop body is not one assignment")
+    st = loop.body[0]
+    sel = _selection(st.value, "feature_id")
+    if sel is None or sel[2] != loop.target.id:
+        raise core.AnchorMissing("remove_feature: loop statement is not a selection against the loop variable")
+    narrow = _is_self_df(st.targets[0]) and _is_self_df(sel[0]) and _is_self_df(sel[1])
+    return dict(iter="requested", norm=_norm_of(fn, loop, vp), acc="narrow" if narrow else "bad", reset=_reset_of(fn, ""),
+                sameFrame=bool(_is_self_df(sel[0]) and _is_self_df(sel[1])))
+
+
+def _unique_kind(src, call):
+    """self.<helper>(feature_id) resolved through the helper's single return: <column>.unique() -> uniqueFirst; np.unique / sorted -> uniqueSorted"""
+    if not (isinstance(call, ast.Call) and isinstance(call.func, ast.Attribute) and isinstance(call.func.value, ast.Name) and call.func.value.id == "self"
+            and len(call.args) == 1 and isinstance(call.args[0], ast.Name) and call.args[0].id == "feature_id"):
+        return "bad"
+    helper = src.find(REL, "Motl." + call.func.attr)
+    hp = helper.args.args[1].arg
+    ret = _one([n for n in ast.walk(helper) if isinstance(n, ast.Return)], "unique helper: one return").value
+    def column(n):
+        return isinstance(n, ast.Subscript) and any(isinstance(x, ast.Name) and x.id == hp for x in ast.walk(n.slice)) and \
+            _is_self_df(n.value.value if isinstance(n.value, ast.Attribute) and n.value.attr == "loc" else n.value)
+    if _call_attr(ret, "unique") and not ret.args and column(ret.func.value):
+        return "uniqueFirst"
+    if isinstance(ret, ast.Call) and core.norm_expr(ret.func) in ("np.unique", "sorted") and len(ret.args) == 1 and column(ret.args[0]):
+        return "uniqueSorted"
+    return "bad"
+
+
+def loop_split(src):
+    fn = src.find(REL, "Motl.split_by_feature")
+    loop = _top_for(fn, "split_by_feature")
+    if not (isinstance(loop.iter, ast.Name) and isinstance(loop.target, ast.Name)):
+        raise core.AnchorMissing("split_by_feature: the loop does not run over a plain list of values")
+    a = _assigned_before(fn, loop, loop.iter.id)
+    it = _unique_kind(src, a[0]) if a is not None and a[1] is None else "bad"
+    body = [x for x in loop.body if not (isinstance(x, ast.If) and isinstance(x.test, ast.Name))]   # `if write_out:` side effects
+    if len(body) != 2 or not isinstance(body[0], ast.Assign) or not isinstance(body[1], ast.Expr):
+        raise core.AnchorMissing("split_by_feature: loop body is not <part> = Motl(<selection>); <list>.append(<part>)")
+    mk = body[0].value
+    if not (isinstance(mk, ast.Call) and core.norm_expr(mk.func) == "Motl" and len(mk.args) == 1 and not mk.keywords):
+        raise core.AnchorMissing("split_by_feature: part is not Motl(<selection>)")
+    sel = _selection(mk.args[0], "feature_id")
+    if sel is None or sel[2] != loop.target.id:
+        raise core.AnchorMissing("split_by_feature: selection is not against the loop variable")
+    part = body[0].targets[0].id
+    call = body[1].value
+    acc = "bad"
+    if isinstance(call, ast.Call) and isinstance(call.func, ast.Attribute) and isinstance(call.func.value, ast.Name):
+        lst = call.func.value.id
+        init = _assigned_before(fn, loop, lst)
+        empty = init is not None and ((isinstance(init[0], ast.List) and not init[0].elts) or (isinstance(init[0], ast.Call) and core.norm_expr(init[0]) == "list()"))
+        rets = [n for n in ast.walk(fn) if isinstance(n, ast.Return)]
+        retok = len(rets) == 1 and isinstance(rets[0].value, ast.Name) and rets[0].value.id == lst
+        if empty and retok:
+            if call.func.attr == "append" and [core.norm_expr(x) for x in call.args] == [part]:
+                acc = "append"
+            elif call.func.attr == "insert" and [core.norm_expr(x) for x in call.args] == ["0", part]:
+                acc = "prepend"
+    return dict(iter=it, norm="none", acc=acc, reset="absent", sameFrame=bool(_is_self_df(sel[0]) and _is_self_df(sel[1])))
+
+
+def loop_objects(src):
+    fn = src.find(REL, "Motl.renumber_objects_sequentially")
+    gb = _one([n for n in ast.walk(fn) if _call_attr(n, "groupby")], "renumber_objects_sequentially: groupby")
+    extra = sorted(k.arg for k in gb.keywords if k.arg not in ("group_keys", "sort"))
+    if extra or len(gb.args) != 1:
+        raise core.AnchorMissing(f"renumber_objects_sequentially: unexpected groupby options {extra}")
+    key = ast.literal_eval(gb.args[0])
+    srt = _kw(gb, "sort")
+    order = "uniqueSorted" if srt is None or (isinstance(srt, ast.Constant) and srt.value is True) else "uniqueFirst"
+    frame = gb.func.value
+    reset = "absent"
+    if isinstance(frame, ast.Name):
+        init = [st for st in fn.body if isinstance(st, ast.Assign) and isinstance(st.targets[0], ast.Name) and st.targets[0].id == frame.id]
+        v = _one(init, "renumber_objects_sequentially: working frame assigned once").value
+        if _call_attr(v, "reset_index") and _is_self_df(v.func.value):
+            d = _kw(v, "drop")
+            reset = "dropTrue" if isinstance(d, ast.Constant) and d.value is True else "keepOld"
+        else:
+            reset = "bad"
+    elif not _is_self_df(frame):
+        reset = "bad"
+    loop = _top_for(fn, "renumber_objects_sequentially")
+    it = loop.iter
+    over_groups = _call_attr(it, "items") and isinstance(it.func.value, ast.Attribute) and it.func.value.attr == "groups" and it.func.value.value is gb
+    writes = False
+    inner_name = None
+    if over_groups and isinstance(loop.target, ast.Tuple) and len(loop.target.elts) == 2 and isinstance(loop.target.elts[1], ast.Name) and len(loop.body) == 1 \
+            and isinstance(loop.body[0], ast.Assign):
+        gi = loop.target.elts[1].id
+        st = loop.body[0]
+        want = f"{core.norm_expr(frame)}.loc[{gi}]"
+        v = st.value
+        if core.norm_expr(st.targets[0]) == want and isinstance(v, ast.Call) and isinstance(v.func, ast.Name) and len(v.args) == 1 \
+                and core.norm_expr(v.args[0]) in (want, want + ".copy()"):
+            inner_name = v.func.id
+            last = fn.body[-1]
+            writes = isinstance(last, ast.Assign) and _is_self_df(last.targets[0]) and core.norm_expr(last.value) == core.norm_expr(frame)
+    codes, upd = "bad", None
+    if inner_name:
+        inner = src.find(REL, "Motl.renumber_objects_sequentially." + inner_name)
+        gp = inner.args.args[0].arg
+        sts = [x for x in inner.body if isinstance(x, ast.Assign)]
+        nonloc = [n for x in inner.body if isinstance(x, ast.Nonlocal) for n in x.names]
+        col = f"{gp}['object_id']"
+        if len(sts) == 2 and len(nonloc) == 1:
+            sv = nonloc[0]
+            seed = [st for st in fn.body if isinstance(st, ast.Assign) and isinstance(st.targets[0], ast.Name) and st.targets[0].id == sv]
+            seeded = len(seed) == 1 and isinstance(seed[0].value, ast.Name) and seed[0].value.id == "starting_number"
+            a, b = sts
+            if seeded and core.norm_expr(a.targets[0]) == col and core.norm_expr(a.value) == f"{col}.factorize()[0]+{sv}":
+                codes = "factorizeFirst"
+            if seeded and core.norm_expr(b.targets[0]) == sv and isinstance(b.value, ast.BinOp) and isinstance(b.value.op, ast.Add) \
+                    and core.norm_expr(b.value.left) == f"{col}.max()" and isinstance(b.value.right, ast.Constant) and isinstance(b.value.right.value, int):
+                upd = int(b.value.right.value)
+            elif seeded and core.norm_expr(b.targets[0]) == sv and core.norm_expr(b.value) == f"{col}.max()":
+                upd = 0
+        rets = [n for n in ast.walk(inner) if isinstance(n, ast.Return)]
+        if not (len(rets) == 1 and isinstance(rets[0].value, ast.Name) and rets[0].value.id == gp):
+            codes = "bad"
+    return dict(groupKey=key, groupOrder=order, codes=codes, startUpdate=upd, reset=reset, writesBack=bool(writes))
 
 
 def extract(src):
@@ -65,60 +302,14 @@ def extract(src):
     g["format_is_perm"] = src.anchor("check_df_correct_format:sorted==sorted", fmt)
 
     # ---- get_motl_subset
-    def subset_cmp():
-        op, rhs = _compare_on_feature(src, "Motl.get_motl_subset")
-        lv = _loop_var_over(src, "Motl.get_motl_subset", "feature_values")
-        if rhs != lv:
-            raise core.AnchorMissing("get_motl_subset: comparison is not against the loop variable over feature_values")
-        return op
-    g["subset_cmp"] = src.anchor("get_motl_subset:self.df[feature_id]<op>i", subset_cmp)
-
-    def subset_values():
-        fn = src.find(REL, "Motl.get_motl_subset")
-        for n in ast.walk(fn):
-            if isinstance(n, ast.Assign) and core.norm_expr(n.targets[0]) == "feature_values":
-                return core.norm_expr(n.value)
-        raise core.AnchorMissing("get_motl_subset: feature_values = ...")
-    g["subset_values"] = src.anchor("get_motl_subset:feature_values-normalisation", subset_values)
-
-    def subset_concat():
-        fn = src.find(REL, "Motl.get_motl_subset")
-        calls = [n for n in ast.walk(fn) if isinstance(n, ast.Call) and core.norm_expr(n.func) == "pd.concat"]
-        c = _one(calls, "get_motl_subset: pd.concat")
-        return core.norm_expr(c.args[0])
-    g["subset_concat"] = src.anchor("get_motl_subset:concat-order", subset_concat)
+    g["subset_cmp"] = src.anchor("get_motl_subset:self.df[feature_id]<op>i", lambda: _loop_cmp(src, "Motl.get_motl_subset"))
+    g["subset_loop"] = src.anchor("get_motl_subset:loop-structure", lambda: loop_subset(src))
 
     # ---- remove_feature
-    def remove_cmp():
-        op, rhs = _compare_on_feature(src, "Motl.remove_feature")
-        lv = _loop_var_over(src, "Motl.remove_feature", "feature_values")
-        if rhs != lv:
-            raise core.AnchorMissing("remove_feature: comparison is not against the loop variable over feature_values")
-        return op
-    g["remove_cmp"] = src.anchor("remove_feature:self.df[feature_id]<op>value", remove_cmp)
-
-    # ---- split_by_feature
-    def split_cmp():
-        op, rhs = _compare_on_feature(src, "Motl.split_by_feature")
-        lv = _loop_var_over(src, "Motl.split_by_feature", "uniq_values")
-        if rhs != lv:
-            raise core.AnchorMissing("split_by_feature: comparison is not against the loop variable over uniq_values")
-        return op
-    g["split_cmp"] = src.anchor("split_by_feature:self.df[feature_id]<op>value", split_cmp)
-
-    def split_uniq():
-        fn = src.find(REL, "Motl.split_by_feature")
-        for n in ast.walk(fn):
-            if isinstance(n, ast.Assign) and core.norm_expr(n.targets[0]) == "uniq_values":
-                return core.norm_expr(n.value)
-        raise core.AnchorMissing("split_by_feature: uniq_values = ...")
-    g["split_uniq"] = src.anchor("split_by_feature:uniq_values", split_uniq)
-
-    def uniq_impl():
-        fn = src.find(REL, "Motl.get_unique_values")
-        rets = [n for n in ast.walk(fn) if isinstance(n, ast.Return)]
-        return core.norm_expr(_one(rets, "get_unique_values: return").value)
-    g["uniq_impl"] = src.anchor("get_unique_values:return", uniq_impl)
+    g["remove_cmp"] = src.anchor("remove_feature:self.df[feature_id]<op>value", lambda: _loop_cmp(src, "Motl.remove_feature"))
+    g["split_cmp"] = src.anchor("split_by_feature:self.df[feature_id]<op>value", lambda: _loop_cmp(src, "Motl.split_by_feature"))
+    g["split_loop"] = src.anchor("split_by_feature:loop-structure", lambda: loop_split(src))
+    g["remove_loop"] = src.anchor("remove_feature:loop-structure", lambda: loop_remove(src))
 
     # ---- get_motl_intersection: rows of m1 whose id isin m2
     def inter():
@@ -244,29 +435,17 @@ def extract(src):
         return int(_defaults(src.find(REL, "Motl.renumber_objects_sequentially"))["starting_number"])
     g["ro_default"] = src.anchor("renumber_objects_sequentially:default-start", ro_default)
 
-    def ro_group():
-        fn = src.find(REL, "Motl.renumber_objects_sequentially")
-        calls = [n for n in ast.walk(fn) if isinstance(n, ast.Call) and isinstance(n.func, ast.Attribute) and n.func.attr == "groupby"]
-        c = _one(calls, "renumber_objects_sequentially: groupby")
-        extra = sorted(k.arg for k in c.keywords if k.arg not in ("group_keys",))
-        if extra:
-            raise core.AnchorMissing(f"renumber_objects_sequentially: unexpected groupby options {extra}")
-        return ast.literal_eval(c.args[0])
-    g["ro_group"] = src.anchor("renumber_objects_sequentially:groupby-key", ro_group)
-
-    def ro_assign():
-        fn = src.find(REL, "Motl.renumber_objects_sequentially.assign_new_object_id")
-        sts = [core.norm_expr(n.targets[0]) + "=" + core.norm_expr(n.value) for n in fn.body if isinstance(n, ast.Assign)]
-        return ";".join(sts)
-    g["ro_assign"] = src.anchor("renumber_objects_sequentially:assign_new_object_id", ro_assign)
+    g["obj_loop"] = src.anchor("renumber_objects_sequentially:loop-structure", lambda: loop_objects(src))
     return g
 
 
+ITER = ("requested", "uniqueFirst", "uniqueSorted")
+NORM = ("atleast1d", "wrapInList", "listOrArrayElseWrap", "none")
+ACC = ("append", "prepend", "narrow")
+RESET = ("dropTrue", "absent", "keepOld")
+CODES = ("factorizeFirst",)
+
 DOC = dict(
-    subset_values="np.atleast_1d(np.asarray(feature_values))",
-    subset_concat="[new_df,df_i]",
-    split_uniq="self.get_unique_values(feature_id)",
-    uniq_impl="self.df.loc[:,feature_id].unique()",
     inter="m1.df.loc[m1.df[feature_id].isin(m2.df[feature_id])]",
     inter_loads="m1=cls.load(motl1.df);m2=cls.load(motl2.df)",
     shift="motl.df.loc[:,'object_id']=motl.df.loc[:,'object_id']+(feature_add-feature_min+1)",
@@ -274,7 +453,6 @@ DOC = dict(
     mr_tail="renumber_particles()",
     md_tail="drop_duplicates()",
     rp="self.df.loc[:,'subtomo_id']=list(range(1,len(self.df)+1))",
-    ro_assign="group['object_id']=group['object_id'].factorize()[0]+start_number;start_number=group['object_id'].max()+1",
 )
 
 
@@ -286,24 +464,72 @@ def translate(src):
     b = lambda v: "true" if v else "false"
     dd = g["dd_defaults"] if isinstance(g.get("dd_defaults"), list) else ["<missing>", "<missing>", True]
     nat = lambda k: g[k] if isinstance(g.get(k), int) and g[k] >= 0 else 0
+    en = lambda v, allowed: "." + (v if v in allowed else "bad")
+
+    def loop_(k):
+        d = g.get(k) if isinstance(g.get(k), dict) else {}
+        return ("{ iter := " + en(d.get("iter"), ITER) + ", norm := " + en(d.get("norm"), NORM) + ", acc := " + en(d.get("acc"), ACC)
+                + ", reset := " + en(d.get("reset"), RESET) + ", sameFrame := " + b(d.get("sameFrame")) + " }")
+
+    def obj_():
+        d = g.get("obj_loop") if isinstance(g.get("obj_loop"), dict) else {}
+        upd = d.get("startUpdate")
+        return ("{ groupKey := " + core.lean_str(str(d.get("groupKey", "<missing>"))) + ", groupOrder := " + en(d.get("groupOrder"), ITER)
+                + ", codes := " + en(d.get("codes"), CODES) + ", startUpdate := " + (f"some {upd}" if isinstance(upd, int) and upd >= 0 else "none")
+                + ", reset := " + en(d.get("reset"), RESET) + ", writesBack := " + b(d.get("writesBack")) + " }")
     return f"""-- GENERATED by harness/props/c08.py from {REL}; do not edit
 namespace CryoCat.Gen.C08
 /-- comparison operators as they appear in the source (`.bad` = not one of the six) -/
 inductive Cmp | eq | ne | lt | le | gt | ge | bad
+deriving DecidableEq, Repr
+/-- what a loop runs over: the requested values themselves / the distinct values of the column in order of
+first appearance (`Series.unique`) / the distinct values sorted (`np.unique`, `groupby` default) -/
+inductive Iter | requested | uniqueFirst | uniqueSorted | bad
+deriving DecidableEq, Repr
+/-- how the requested values are made iterable: `np.atleast_1d(np.asarray(v))` / `np.array([v])` (wrong for
+array-likes) / `if not isinstance(v, (list, np.ndarray)): v = [v]` / nothing -/
+inductive Norm | atleast1d | wrapInList | listOrArrayElseWrap | none | bad
+deriving DecidableEq, Repr
+/-- how the loop accumulates: `acc = concat([acc, part])` or `list.append(part)` / `concat([part, acc])` or
+`insert(0, part)` / `frame = frame.loc[mask of the same frame]` -/
+inductive Acc | append | prepend | narrow | bad
+deriving DecidableEq, Repr
+/-- index handling: `reset_index(drop=True)` / no reset / `reset_index()` that would add the old index as a column -/
+inductive Reset | dropTrue | absent | keepOld | bad
+deriving DecidableEq, Repr
+inductive Codes | factorizeFirst | bad
+deriving DecidableEq, Repr
+/-- structure of a `for value in …: <select rows by comparison with value>; <accumulate>` loop, extracted from
+ast shapes (local variable names are not compared) -/
+structure SelectLoop where
+  iter : Iter
+  norm : Norm
+  acc : Acc
+  reset : Reset
+  sameFrame : Bool
+deriving DecidableEq, Repr
+/-- structure of `renumber_objects_sequentially`: `groupby(groupKey)` in `groupOrder`, per group
+`factorize()[0] + start`, then `start = max + startUpdate`, written back into the re-indexed frame -/
+structure ObjLoop where
+  groupKey : String
+  groupOrder : Iter
+  codes : Codes
+  startUpdate : Option Nat
+  reset : Reset
+  writesBack : Bool
 deriving DecidableEq, Repr
 def anchorsOk : Bool := {b(src.ok)}
 def motlColumnNames : List String := {core.lean_str_list(cols)}
 def formatIsPermCheck : Bool := {b(g.get("format_is_perm"))}
 -- get_motl_subset
 def subsetCmp : Cmp := {cmp_("subset_cmp")}
-def subsetValues : String := {s("subset_values")}
-def subsetConcat : String := {s("subset_concat")}
+def subsetLoop : SelectLoop := {loop_("subset_loop")}
 -- remove_feature
 def removeCmp : Cmp := {cmp_("remove_cmp")}
+def removeLoop : SelectLoop := {loop_("remove_loop")}
 -- split_by_feature
 def splitCmp : Cmp := {cmp_("split_cmp")}
-def splitUniq : String := {s("split_uniq")}
-def uniqImpl : String := {s("uniq_impl")}
+def splitLoop : SelectLoop := {loop_("split_loop")}
 -- get_motl_intersection
 def intersectSelection : String := {s("inter")}
 def intersectOperands : String := {s("inter_loads")}
@@ -329,8 +555,7 @@ def renumberParticlesAssign : String := {s("rp")}
 def renumberParticlesFirst : Nat := {nat("rp_start")}
 -- renumber_objects_sequentially
 def renumberObjectsDefaultStart : Nat := {nat("ro_default")}
-def renumberObjectsGroupKey : String := {s("ro_group")}
-def renumberObjectsAssign : String := {s("ro_assign")}
+def objLoop : ObjLoop := {obj_()}
 end CryoCat.Gen.C08
 """
 
@@ -357,7 +582,8 @@ RULE = ("histories: a base particle list of 0..200 rows (key fields tomo_id/obje
         "renumber_objects_sequentially; arguments are chosen against a pure-Python row-set simulation of the current table so that most ops hit "
         "existing values (requested values as list / tuple / ndarray / scalar, repeated and absent values, empty value lists; second operands of "
         "intersection repeat ids; merge inputs are Motl objects or bare DataFrames, some empty). After every op the whole table (column names and "
-        "all cells, bit-exact) is compared with the Lean model and the clauses of the statement are evaluated on the real output. "
+        "all cells, bit-exact) is compared with the Lean model, and the real output of every op (plus all parts of a split and the column names) is sent to the "
+        "Lean verified checkers, which decide the clauses of the statement (Python evaluators cross-check them). "
         "non-trivial = base >= 4 rows, >= 3 ops of >= 2 kinds, and >= 2 ops acting on a non-empty table; distinct = distinct (base, ops) content")
 ASSUMPTIONS = [
     "key fields (the feature compared / the id / the decision column of an op) hold no NaN, so == is reflexive; NaN occurs only in the 12 non-key fields",
@@ -367,7 +593,11 @@ ASSUMPTIONS = [
     "pandas: boolean-mask selection and concat keep row order; Series.unique / factorize number by first appearance; sort_values on two keys is a stable "
     "lexicographic sort; drop_duplicates keeps the first; groupby iterates its keys in ascending order; isin is exact float membership",
 ]
-TRUSTED = ["pure-Python clause evaluators in props/c08.py judge() (decide spec findings; the Lean model decides correspondence findings)"]
+TRUSTED = ["spec findings are decided by the Lean verified checkers (Model/C08_Check.lean; check_*_sound / check_*_complete / check_history_rows) on the REAL "
+           "output of every op; trusted around them: the adapter that brings a frame into canonical column order and IEEE bit patterns, the driver's cell "
+           "comparison (same bit pattern, one pattern for every NaN) standing for equality (hypothesis heqv), and that a raised exception is reported as such",
+           "offset certificates for merge_and_drop_duplicates are computed in Python but NOT trusted (the checker verifies them; a wrong one can only cause a rejection)",
+           "the pure-Python clause evaluators are a cross-check only (a disagreement with the Lean checker is reported as a corr finding)"]
 
 
 def canon(b):
@@ -734,8 +964,67 @@ def _wire_op(op):
     return dict(op=k)
 
 
+def py_merge_offsets(inputs):
+    """object-number offset per input as the documented loop computes them (0 for empty / unshifted inputs)"""
+    offs, add = [], 0.0
+    for df, rows in inputs:
+        if not rows:
+            offs.append(0.0); continue
+        objs = [val(r, "object_id") for r in rows]
+        c = (add - min(objs) + 1) if min(objs) <= add else 0.0
+        offs.append(c)
+        add = max(objs) + c
+    return offs
+
+
+def _offset_hints(op, prev, cur):
+    """UNTRUSTED certificates for the Lean checker of merge_and_drop_duplicates (one offset per input):
+    the offsets read off the real output where a surviving row identifies its input uniquely (else the
+    documented ones), and the documented ones. The checker verifies whichever it is given."""
+    ins = inputs_of(op, prev)
+    doc = py_merge_offsets(ins)
+    seen = list(doc)
+    cnt = Counter(_mask(fz(r), ["object_id"]) for df, rows in ins for r in rows)
+    outidx = {}
+    for c in cur:
+        outidx.setdefault(_mask(fz(c), ["object_id"]), c)
+    for i, (df, rows) in enumerate(ins):
+        for r in rows:
+            key = _mask(fz(r), ["object_id"])
+            if cnt[key] == 1 and key in outidx:
+                seen[i] = val(outidx[key], "object_id") - val(r, "object_id"); break
+    hints = [seen] if seen == doc else [seen, doc]
+    return [[fb(x) for x in h] for h in hints]
+
+
+def _schema_ok(t):
+    return sorted(t["cols"]) == sorted(FIELDS)
+
+
+def _check_request(case, obs):
+    """the REAL output of every op for the Lean verified checkers; stops after the first step that raised or
+    whose table cannot be brought into the canonical column order (the Lean side then rejects its schema)"""
+    steps, ops = [], []
+    prev = case["base"]
+    for op, st in zip(case["ops"], obs.get("steps", [])):
+        if "error" in st:
+            break
+        tabs = [st] + (st.get("parts") or [])
+        good = all(_schema_ok(t) for t in tabs)
+        rec = dict(cols=st["cols"], rows=st["rows"] if good else [])
+        if "parts" in st:
+            rec["parts"] = [dict(cols=p["cols"], rows=p["rows"] if good else []) for p in st["parts"]]
+        if op["op"] == "merge_dropdup" and good:
+            rec["hints"] = _offset_hints(op, prev, st["rows"])
+        steps.append(rec); ops.append(_wire_op(op))
+        if not good:
+            break
+        prev = st["rows"]
+    return dict(op="check", base=case["base"], ops=ops, obs=steps)
+
+
 def requests(case, obs):
-    return [dict(op="history", base=case["base"], ops=[_wire_op(o) for o in case["ops"]])]
+    return [dict(op="history", base=case["base"], ops=[_wire_op(o) for o in case["ops"]]), _check_request(case, obs)]
 
 
 # ------------------------------------------------------------------ the statement, clause by clause, on the real output
@@ -879,22 +1168,32 @@ def _object_clauses(ins, cur, by_position):
 
 
 def judge(case, obs, resps):
+    """spec findings are decided by the Lean VERIFIED CHECKERS (`check` request: Model/C08_Check.lean, theorems
+    check_*_sound / check_*_complete / check_history_rows) applied to the REAL output of every operation; a raised
+    exception is a spec finding by itself. The Python clause evaluators (`clauses`) only cross-check the checker
+    (a disagreement is a corr finding) and supply the human-readable detail. Then the table is compared with the model."""
     out = []
     steps = obs.get("steps", [])
     if "error" in obs:
         return [dict(kind="spec", clause="raises", detail=obs["error"] + " @" + obs.get("where", ""))]
     model = resps[0] if resps else {"error": "no response"}
+    check = resps[1] if len(resps) > 1 else {"error": "no checker response"}
     prev = case["base"]
     for k, (op, st) in enumerate(zip(case["ops"], steps)):
         name = op["op"]
         if "error" in st:
             return [dict(kind="spec", clause=f"{name}-raises", detail=f"op {k} {name}: {st['error']} @{st.get('where','')}")]
+        if "error" in check or k >= len(check.get("verdicts", [])):
+            return [dict(kind="corr", clause="checker-error", detail=f"op {k} {name}: no verdict from the Lean checker: {str(check)[:300]}")]
+        verdict = check["verdicts"][k]
         tabs = [st] + (st.get("parts") or [])
-        for t in tabs:
-            if sorted(t["cols"]) != sorted(FIELDS):
-                missing = [f for f in FIELDS if f not in t["cols"]]
-                extra = [c for c in t["cols"] if c not in FIELDS]
-                return [dict(kind="spec", clause="exactly-the-20-fields", detail=f"op {k} {name}: table has {len(t['cols'])} columns; missing {missing}, extra {extra}")]
+        if not verdict["schema"]:
+            t = next((t for t in tabs if not _schema_ok(t)), st)
+            missing = [f for f in FIELDS if f not in t["cols"]]
+            extra = [c for c in t["cols"] if c not in FIELDS]
+            return [dict(kind="spec", clause="exactly-the-20-fields", detail=f"op {k} {name}: table has {len(t['cols'])} columns; missing {missing}, extra {extra}")]
+        if not all(_schema_ok(t) for t in tabs):
+            return [dict(kind="corr", clause="checker-vs-python-evaluator", detail=f"op {k} {name}: the Lean schema check accepted column names {st['cols']}")]
         cur = st["rows"]
         parts = [p["rows"] for p in st["parts"]] if "parts" in st else None
         try:
@@ -902,9 +1201,17 @@ def judge(case, obs, resps):
         except Exception as e:
             import traceback
             fs = [("clause-evaluator-crashed", f"{type(e).__name__}: {e} {traceback.format_exc()[-400:]}")]
+        if fs and fs[0][0] == "clause-evaluator-crashed":
+            return [dict(kind="corr", clause=fs[0][0], detail=f"op {k} {name}: {fs[0][1]}")]
+        if not verdict["ok"]:
+            pyd = dict(fs)
+            failed = verdict["failed"] or ["checker-rejected"]
+            note = "" if fs else " [the Python cross-check evaluator saw no failing clause]"
+            return [dict(kind="spec", clause=c, detail=f"op {k} {name}: Lean checker rejects the real output: " + pyd.get(c, "; ".join(d for _, d in fs) or f"{len(prev)} rows in, {len(cur)} rows out") + note)
+                    for c in failed]
         if fs:
-            kind = "corr" if fs[0][0] == "clause-evaluator-crashed" else "spec"
-            return [dict(kind=kind, clause=c, detail=f"op {k} {name}: {d}") for c, d in fs]
+            return [dict(kind="corr", clause="checker-vs-python-evaluator",
+                         detail=f"op {k} {name}: the Lean checker accepts the real output but the Python evaluator reports {c}: {d}") for c, d in fs]
         # correspondence with the Lean model (exact, bit for bit)
         if "error" in model:
             return [dict(kind="corr", clause="model-error", detail=str(model))]
@@ -921,6 +1228,8 @@ def judge(case, obs, resps):
         prev = cur
     if len(steps) != len(case["ops"]):
         out.append(dict(kind="corr", clause="history-truncated", detail=f"{len(steps)} of {len(case['ops'])} ops observed"))
+    elif "error" not in check and not check.get("run_ok", False):
+        out.append(dict(kind="corr", clause="checker-run-vs-steps", detail="every step was accepted but checkRun (the function check_history_rows is about) is false"))
     return out
 
 
@@ -978,6 +1287,10 @@ def stats(case, obs, resps):
         prev = cur
     d["branch"] = branch
     d["final_rows"] = _bucket(len(prev))
+    chk = resps[1] if len(resps) > 1 and isinstance(resps[1], dict) else {}
+    d["lean_checker"] = [f"{op['op']}:{'accepted' if v.get('ok') and v.get('schema') else 'rejected:' + ','.join(v.get('failed') or ['schema'])}"
+                         for op, v in zip(case["ops"], chk.get("verdicts", []))] or ["no-verdict"]
+    d["lean_checker_history"] = "accepted (check_history_rows applies)" if chk.get("run_ok") else "not accepted"
     return d
 
 
@@ -1012,13 +1325,17 @@ def probes(rng):
     return out
 
 
-LEVEL_TEXT = ("Lean 4 theorems about an executable model of get_motl_subset / remove_feature / split_by_feature / get_motl_intersection / drop_duplicates / "
+LEVEL_TEXT = ("Lean 4 verified checkers deciding the clauses of the statement on the REAL output of every operation (checkSchema/checkSubset/checkRemove/checkSplit/"
+              "checkIntersect/checkDropDup/checkMergeRenumber/checkMergeDropDup/checkRenumberParticles/checkRenumberObjects with check_*_sound and check_*_complete, "
+              "check_history_rows for an accepted observed history), plus Lean 4 theorems about an executable model of get_motl_subset / remove_feature / split_by_feature / get_motl_intersection / drop_duplicates / "
               "merge_and_renumber / merge_and_drop_duplicates / renumber_particles / renumber_objects_sequentially, for all lists, all value lists and all "
               "operation sequences, no size bound (subset_spec, remove_spec, remove_subset_complement, split_partition, split_disjoint, intersect_spec, "
-              "dropDup_spec, mergeRenumber_ids, mergeRenumber_objects, renumberParticles_spec, renumberObjects_spec, history_rows, selection_history_rows); "
-              "the model is tied to the source by regenerated operators/defaults/expressions (Gen/C08.lean, 11 documented-value theorems) and by a "
+              "dropDup_spec, mergeRenumber_ids, mergeRenumber_objects, renumberParticles_spec, renumberObjects_spec, history_rows, selection_history_rows, "
+              "split_flatten_eq_stable_sort, subset_eq_stable_sort, mergeRenumber_then_selections_nodup); "
+              "the model is tied to the source by regenerated operators/defaults/expressions and by loop-structure records extracted from ast shapes and EXECUTED by the "
+              "model (Gen/C08.lean: SelectLoop for get_motl_subset / remove_feature / split_by_feature, ObjLoop for renumber_objects_sequentially; 13 documented-value theorems) and by a "
               "bit-exact differential run of random operation histories through the real Motl API against the compiled model")
 LEVEL_NOTE = ("trusted: Lean kernel; translator anchors; pandas semantics listed in assumptions (probed each run); the schema clause (exactly 20 fields) is a "
-              "type in the model and is established for the code only by the correspondence run; NaN->0.0 filling by Motl.load is modelled explicitly")
+              "type in the model (history_schema) and is decided for the code by checkSchema on the real column names (check_schema_iff); NaN->0.0 filling by Motl.load is modelled explicitly")
 TECHNIQUE = "Lean 4 proof (list induction, permutation/partition lemmas, sortedness invariants, ordered-ring arithmetic) + regenerated operators + bit-exact differential histories"
 DESIGN_REF = "DESIGN.md section 4, C08"
